@@ -429,8 +429,8 @@ func (p *Printer) appendTree(b []byte, n *node, offset, closes int) []byte {
 		if off+n.elements[0].size+n.elements[1].size+t+1 <= int(p.RightMargin) {
 			off += n.elements[0].size + 1
 		}
+		VerifPoint("printer.spaces")
 		if len(spaces)-1 < off {
-			VerifPoint("printer.spaces")
 			spaces = append(spaces, bytes.Repeat([]byte{' '}, off-len(spaces)+1)...)
 		}
 		pos := offset + 1
